@@ -84,15 +84,20 @@ Proof.
   destruct s as [ev|keep|]; cbn [hist_step] in E.
   - destruct (try_receive (h_st h) (h_w h) ev) as [[[o' st'] w'] calls]. simplify_eq.
     cbn [iobs_of outcome_of]. rewrite outcome_eqb_refl. simpl.
-    apply map_agrees_to_list, span_data_eqb_refl.
+    rewrite (map_agrees_to_list span_data_eqb _ span_data_eqb_refl). simpl.
+    apply map_agrees_to_list. intros v. by apply cs_data_eqb_spec.
   - unfold persist in E.
     pose proof (restore_spec (h_w h) (persist_metadata (h_st h) ∪ h_md h) (r_spans (h_st h))
                   (if keep then r_local (h_st h) else ∅)) as Hs'.
     destruct (restore _ _ _ _) as [[st' w'] regs]. simplify_eq.
-    cbn [iobs_of outcome_of]. simpl. destruct Hs' as (_ & -> & _).
-    apply map_agrees_to_list, span_data_eqb_refl.
-  - destruct (restore _ _ _ _) as [[st' w'] regs]. simplify_eq.
-    cbn [iobs_of outcome_of]. simpl. apply map_agrees_to_list, span_data_eqb_refl.
+    cbn [iobs_of outcome_of]. simpl. destruct Hs' as (-> & -> & _).
+    rewrite (map_agrees_to_list span_data_eqb _ span_data_eqb_refl). simpl.
+    apply map_agrees_to_list. intros v. by apply cs_data_eqb_spec.
+  - pose proof (restore_spec (h_w h) (h_md h) (h_spans h) ∅) as Hs'.
+    destruct (restore _ _ _ _) as [[st' w'] regs]. simplify_eq.
+    cbn [iobs_of outcome_of]. simpl. destruct Hs' as (-> & -> & _).
+    rewrite (map_agrees_to_list span_data_eqb _ span_data_eqb_refl). simpl.
+    apply map_agrees_to_list. intros v. by apply cs_data_eqb_spec.
 Qed.
 
 Theorem ok_abstract_model steps :
